@@ -35,7 +35,7 @@ Qed.
 Lemma nth_app_l (l l' : list nat) i d : i < length l -> nth i (l ++ l') d = nth i l d.
 Proof. intros. now apply app_nth1. Qed.
 
-Lemma firstn_S_nth (l : list nat) n d : n < length l -> firstn (S n) l = firstn n l ++ [nth n l d].
+Lemma firstn_S_nth A (l : list A) n d : n < length l -> firstn (S n) l = firstn n l ++ [nth n l d].
 Proof.
   revert n. induction l as [|a l IH]; intros n H; simpl in *; [lia|].
   destruct n; simpl; [reflexivity|]. f_equal. apply IH. lia.
@@ -513,11 +513,11 @@ Section DeqCas.
     - apply I.
     - apply I.
     - intros i x Hi. apply (g_vals I). lia.
-    - rewrite Hd, Hv. idtac "DBG". match goal with |- ?G => idtac G end. rewrite (@firstn_S_nth (enq_log s) (hpos s) 0) by lia. rewrite map_app. cbn. now rewrite <- (g_fifo I).
+    - rewrite Hd, Hv, (@firstn_S_nth V (enq_log s) (hpos s) 0) by lia. rewrite map_app. cbn. now rewrite <- (g_fifo I).
     - apply I.
     - intros x. rewrite Hthr. destruct (Nat.eq_dec x tid) as [->|Hne].
-      + cbn. unfold Took. rewrite deqcas_hpos, Hc, Hn, He. repeat split; try lia; auto.
-        now replace (S (hpos s) - 1) with (hpos s) by lia.
+      + cbn [tpc TI]. unfold Took. rewrite deqcas_hpos, Hc, Hn, He.
+        replace (S (hpos s) - 1) with (hpos s) by lia. repeat split; try lia; auto.
       + apply TI_hmono with (s := s); auto; [rewrite deqcas_hpos; lia|apply (t_inv I)].
     - intros x r Hin.
       assert (RI s r).
@@ -621,7 +621,148 @@ Section ClrV.
       + assert (Hp : pending s' (tpc (threads s z)) = pending s (tpc (threads s z))).
         { unfold pending, val_of. destruct (fresh_of (tpc (threads s z))) eqn:E; [|reflexivity].
           rewrite clrv_val; [reflexivity|]. intros ->.
-          eapply fresh_TI in E; [|apply (t_inv I)]. apply E. eapply nth_error_In; eauto. }
+          eapply fresh_TI in E; [|apply (t_inv I)]. destruct E as (E1 & _). apply E1. eapply nth_error_In; eauto. }
         rewrite Hp. apply (b_order I).
   Qed.
 End ClrV.
+
+(* ------------------------------------------------------------------ every step preserves the invariant *)
+
+Ltac frame I tid :=
+  eapply (@inv_frame _ _ _ tid _ I);
+  [reflexivity|reflexivity|reflexivity|reflexivity| |reflexivity| | | | |].
+
+Lemma inv_step progs s tid o : Inv progs s -> Inv progs (fst (step false s tid o)).
+Proof.
+  intros I. unfold step.
+  pose proof (t_inv I tid) as HT.
+  destruct (tpc (threads s tid)) eqn:Hpc; cbn [TI] in HT; try contradiction.
+  - (* PIdle *)
+    destruct (prog (threads s tid)) as [|[v| |] p'] eqn:Hprog; cbn [fst].
+    + exact I.
+    + eapply inv_alloc; eauto; reflexivity.
+    + frame I tid; cbn [tpc results prog fresh_of kw_of]; rewrite ?Hpc, ?Hprog; auto; try discriminate.
+      apply (g_tail I).
+    + frame I tid; cbn [tpc results prog fresh_of kw_of]; rewrite ?Hpc, ?Hprog; auto; try discriminate.
+      apply (g_tail I).
+  - (* PEnqLoadTail *)
+    cbn [fst]. frame I tid; cbn [tpc results prog fresh_of kw_of TI]; rewrite ?Hpc; auto; try discriminate.
+    + apply (g_tail I).
+    + split; [exact HT|apply (g_tail I)].
+  - (* PEnqLoadNext *)
+    destruct HT as (HF & Hin).
+    cbv zeta. change (nodes (touch s t)) with (nodes s).
+    destruct (nnext (nodes s t)) as [nx|] eqn:Hnx; cbn [fst];
+      frame I tid; cbn [tpc results prog fresh_of kw_of TI]; rewrite ?Hpc; auto; try discriminate;
+      try apply (g_tail I).
+    split; auto. destruct (In_nth_error _ _ Hin) as [i Hi].
+    pose proof (g_next I _ Hi) as G. rewrite Hnx in G. symmetry in G. eapply nth_error_In; eauto.
+  - (* PEnqHelp *)
+    destruct HT as (HF & Hin). cbv zeta. change (qtail (touch s t)) with (qtail s).
+    destruct (Nat.eqb (qtail s) t); cbn [fst];
+      frame I tid; cbn [tpc results prog fresh_of kw_of TI]; rewrite ?Hpc; auto; try discriminate.
+    apply (g_tail I).
+  - (* PEnqLink *)
+    cbv zeta. change (nodes (touch s t)) with (nodes s).
+    destruct (nnext (nodes s t)) as [nx|] eqn:Hnx; cbn [fst].
+    + frame I tid; cbn [tpc results prog fresh_of kw_of TI]; rewrite ?Hpc; auto; try discriminate.
+      * apply (g_tail I).
+      * apply HT.
+    + eapply inv_link with (s := s) (tid := tid) (n := n) (t := t); eauto; reflexivity.
+  - (* PEnqSwing *)
+    cbv zeta. change (qtail (touch s t)) with (qtail s).
+    destruct (Nat.eqb (qtail s) t); cbn [fst];
+      frame I tid; cbn [tpc results prog fresh_of kw_of TI]; rewrite ?Hpc; auto; try discriminate.
+    apply (g_tail I).
+  - (* PEnqAdd *)
+    cbn [fst]. frame I tid; cbn [tpc results prog fresh_of kw_of TI]; rewrite ?Hpc; auto; try discriminate.
+    apply (g_tail I).
+  - (* PDeqLoadHead *)
+    cbn [fst]. frame I tid; cbn [tpc results prog fresh_of kw_of TI]; rewrite ?Hpc; auto; try discriminate.
+    + apply (g_tail I).
+    + exists (hpos s). split; [lia|apply (g_head I)].
+  - (* PDeqLoadNext *)
+    destruct HT as (i & Hle & Hi).
+    cbv zeta. change (nodes (touch s h)) with (nodes s).
+    destruct (nnext (nodes s h)) as [nx|] eqn:Hnx; cbn [fst].
+    + frame I tid; cbn [tpc results prog fresh_of kw_of TI]; rewrite ?Hpc; auto; try discriminate.
+      * apply (g_tail I).
+      * exists i. split; auto. pose proof (g_next I _ Hi) as G. now rewrite Hnx in G.
+    + frame I tid; cbn [tpc results prog fresh_of kw_of TI]; rewrite ?Hpc; auto; try discriminate.
+      * apply (g_tail I).
+      * intros r [<-|H]; [right; exact Logic.I|now left].
+  - (* PDeqCas *)
+    cbv zeta. change (qhead (touch s h)) with (qhead s).
+    destruct (Nat.eqb (qhead s) h) eqn:E; cbn [fst].
+    + apply Nat.eqb_eq in E.
+      eapply inv_deqcas with (s := s) (tid := tid) (h := h) (nx := nx); eauto; reflexivity.
+    + frame I tid; cbn [tpc results prog fresh_of kw_of TI]; rewrite ?Hpc; auto; try discriminate.
+      apply (g_tail I).
+  - (* PDeqReadV *)
+    destruct HT as (HTk & Hk & Hv).
+    cbv zeta. cbn [fst].
+    frame I tid; cbn [tpc results prog fresh_of kw_of TI]; rewrite ?Hpc; auto; try discriminate.
+    apply (g_tail I).
+  - (* PDeqClrV *)
+    cbn [fst]. eapply inv_clrv with (s := s) (tid := tid); eauto; reflexivity.
+  - (* PDeqAdd *)
+    destruct HT as (HTk & Hr).
+    cbn [fst]. frame I tid; cbn [tpc results prog fresh_of kw_of TI]; rewrite ?Hpc; auto; try discriminate.
+    + apply (g_tail I).
+    + intros r0 [<-|H]; [right|now left]. rewrite Hr. cbn. auto.
+  - (* PLen *)
+    cbn [fst]. frame I tid; cbn [tpc results prog fresh_of kw_of TI]; rewrite ?Hpc; auto; try discriminate.
+    + apply (g_tail I).
+    + intros r0 [<-|H]; [right; exact Logic.I|now left].
+Qed.
+
+(* ------------------------------------------------------------------ reachable states, any number of threads *)
+
+Inductive reach (progs : list (list qop)) : state -> Prop :=
+| reach_init : reach progs (init progs)
+| reach_step s tid o : reach progs s -> reach progs (fst (step false s tid o)).
+
+Lemma reach_inv progs s : reach progs s -> Inv progs s.
+Proof. induction 1; [apply inv_init|now apply inv_step]. Qed.
+
+(* FIFO at the linearization points: the values taken by the successful head CASes, in CAS order, are
+   exactly the first values linked, in link order (no loss, no duplication, no reordering). *)
+Lemma conc_fifo progs s :
+  reach progs s -> deq_log s = map Some (firstn (length (deq_log s)) (enq_log s)).
+Proof. intros H. apply (g_fifo (reach_inv H)). Qed.
+
+Lemma conc_deq_le_enq progs s : reach progs s -> length (deq_log s) <= length (enq_log s).
+Proof. intros H. apply (hpos_le_enq (reach_inv H)). Qed.
+
+(* What a Dequeue call returns is the value of its own linearization point. *)
+Lemma conc_results progs s tid r :
+  reach progs s -> In r (results (threads s tid)) ->
+  match r with
+  | RVal k v => 1 <= k <= length (deq_log s) /\ nth_error (enq_log s) (k - 1) = Some v
+  | RNil _ => False
+  | _ => True
+  end.
+Proof.
+  intros H Hin. pose proof (reach_inv H) as I. pose proof (r_inv I _ _ Hin) as R.
+  destruct r; cbn in R; auto. destruct R as ((A & B) & ->). unfold hpos in B. split; [lia|].
+  apply nth_error_nth'. pose proof (hpos_le_enq I). unfold hpos in *. lia.
+Qed.
+
+(* A Dequeue reports "empty" only at an instant at which every linked value has been taken. *)
+Lemma conc_empty progs s tid h :
+  reach progs s -> tpc (threads s tid) = PDeqLoadNext h -> nnext (nodes s h) = None ->
+  length (deq_log s) = length (enq_log s).
+Proof.
+  intros H Hpc Hn. pose proof (reach_inv H) as I. pose proof (t_inv I tid) as T. rewrite Hpc in T.
+  destruct T as (i & Hle & Hi). pose proof (g_next I _ Hi) as G. rewrite Hn in G. symmetry in G.
+  apply nth_error_None in G. pose proof (hpos_lt_len I). pose proof (g_len I). unfold hpos in *. lia.
+Qed.
+
+(* Per-producer order: the values a thread has linked so far (in link order), the value it is about
+   to link, and the Enqueue calls still in its program are together its original sequence of
+   Enqueue calls. *)
+Lemma conc_program_order progs s tid :
+  reach progs s ->
+  linked_by s tid ++ pending s (tpc (threads s tid)) ++ enq_vals (prog (threads s tid))
+  = enq_vals (nth tid progs []).
+Proof. intros H. apply (b_order (reach_inv H)). Qed.
